@@ -31,8 +31,17 @@ func (c *Ctx) rulesC02(a *coreAnchors) {
 	}
 	fCache := c.field(pm, "Transition", "cacheTargetStates")
 	fTI := c.field(pm, "Transition", "TargetIndexes")
-	fromResolver := func(v ssa.Value) bool {
+	var fromResolverD func(v ssa.Value, d int) bool
+	fromResolver := func(v ssa.Value) bool { return fromResolverD(v, 0) }
+	fromResolverD = func(v ssa.Value, d int) bool {
 		return derives(v, func(x ssa.Value) bool {
+			// a parameter of a private single-host helper: what is passed for it
+			if p, ok := x.(*ssa.Parameter); ok && d < 3 {
+				if av := c.hostedArg(p, c.hostRootOf(p.Parent())); av != x {
+					return fromResolverD(av, d+1)
+				}
+				return false
+			}
 			call, ok := x.(*ssa.Call)
 			if !ok {
 				return false
